@@ -46,6 +46,7 @@ pub fn run<C: SimCfg>(plan: &Plan, check_distance: usize, frames: u32, expect_re
         Ok(Ok(s)) => s,
     };
     let mut game = Game::new();
+    game.own_snapshots = cfg.own_snapshots;
     let perturb = plan.perturb.first().cloned();
     if let Some(p) = &perturb {
         game.perturb = Some((p.frame, p.mode.clone()));
@@ -55,6 +56,9 @@ pub fn run<C: SimCfg>(plan: &Plan, check_distance: usize, frames: u32, expect_re
     let once_k = perturb.as_ref().and_then(|p| if let PerturbMode::NondetOnce(k) = p.mode { Some(k) } else { None }).unwrap_or(0);
     let mut viol: Vec<Violation> = Vec::new();
     let mut probes = Probes::default();
+    if cfg.own_snapshots {
+        probes.extra.insert("runs_with_own_snapshots", 1);
+    }
     let np = cfg.num_players;
     let d = cfg.input_delay as i32;
     // truth[p][f]: the value submitted at user frame f - delay, default before
